@@ -110,6 +110,19 @@ pub fn exec(line: &str, _model: &mut Model) -> Option<Exec> {
                 let differ = protected(t1, flags) != protected(t2, flags);
                 e.tags.push(format!("protected-differ:{}", differ));
                 if let (Some(a), Some(b)) = (&r1, &r2) { if differ && a == b { e.oracle_fail = Some("two targets that differ in a protected field yield the same IPPT".into()); } }
+                // one IPPT object used for both targets in turn (and for the first again): same plaintexts as fresh objects
+                let reused = no_panic(|| {
+                    let mut bd = IpptBuilder::default().scope_flags(flags);
+                    if let Some(p) = prim { bd = bd.primary_block(p.clone()); }
+                    if let Some(h) = hdr { bd = bd.security_header(h); }
+                    let mut obj = bd.build();
+                    (obj.create(t1), obj.create(t2), obj.create(t1))
+                });
+                match (&reused, &r1, &r2) {
+                    (Some((a1, a2, a3)), Some(f1), Some(f2)) => { if (a1, a2, a3) != (f1, f2, f1) && e.oracle_fail.is_none() { e.oracle_fail = Some(format!("an IPPT object used for several targets in turn yields {} for the second target, a fresh object {}", clip(&hex(a2)), clip(&hex(f2)))); } }
+                    (None, Some(_), Some(_)) => { if e.oracle_fail.is_none() { e.oracle_fail = Some("IPPT construction on a reused object panics".into()); } }
+                    _ => {}
+                }
                 Some(e)
             }
         }
